@@ -13,6 +13,7 @@ mod c03;
 mod c13;
 mod npy;
 mod cli;
+mod io;
 
 use std::io::{BufRead, Write};
 
@@ -38,6 +39,7 @@ fn eval_line(ctx: &Ctx, line: &str) -> String {
             "c04" => c04::eval(*ctxp, &opn, &a),
             "c03" => c03::eval(&opn, &a),
             "c13" => c13::eval(*ctxp, &opn, &a),
+            "io" => io::eval(*ctxp, &opn, &a),
             p @ ("c01" | "c02" | "c08" | "c09" | "c10" | "c11" | "c12") => {
                 let _ = p;
                 if opn.ends_with(".mem") { create::eval_mem(&a) }
@@ -99,6 +101,10 @@ fn main() {
                 "c12" => creategen::gen_c12(&ctx, &mut rng, &mut reqs),
                 "c03" => c03::gen(&ctx, &mut rng, &mut reqs),
                 "c13" => c13::gen(&ctx, &mut rng, &mut reqs),
+                "c07" => io::gen_c07(&ctx, &mut rng, &mut reqs),
+                "c15" => io::gen_c15(&ctx, &mut rng, &mut reqs),
+                "c16" => io::gen_c16(&ctx, &mut rng, &mut reqs),
+                "c18" => io::gen_c18(&ctx, &mut rng, &mut reqs),
                 _ => { eprintln!("unknown property {prop}"); std::process::exit(2); }
             }
             if mode == "gen" { for r in &reqs { writeln!(out, "{r}").unwrap(); } }
